@@ -61,7 +61,7 @@ pub fn values(tier: Tier) -> Vec<Val> {
     out.push(Val::rec(vec![("__expr".into(), Val::Str("1 + 1".into()))]));
     // depth 2
     let d1: Vec<Val> = out.clone();
-    let step = tier.pick(5, 1);
+    let step = tier.pick(2, 1);
     for (i, x) in d1.iter().enumerate() {
         if i % step != 0 && !matches!(x, Val::Rec(_)) {
             continue;
